@@ -7,7 +7,10 @@ import Pyunicorn.Model.Window
 * `<init>`: `G` (constructor without window) or `W=a,b,c,d,e,f`
 * `<op>`: `W=a,b,c,d,e,f` (set_window) | `G` (set_global_window) | `X` (cache_clear)
   | `o` (observable) | `g` (grid) | `w` (window) | `pm` | `an` | `pi`
-  | `sp=<phases>` (indices_selected_phases) | `am=<months>` (anomaly_selected_months)
+  | `sp=<phases>` (indices_selected_phases, integers) | `am=<months>` (anomaly_selected_months)
+  | `im=<months>` (indices_selected_months) | `Wc` (set_window(window()))
+  | `N` (continue with ClimateData(obj.observable(), obj.grid, …))
+  | `sh=<perms>` (shuffled_anomaly, one permutation per column, rows separated by `;`)
 
 Answer: the outputs of the operations joined by `|`.
 -/
@@ -57,9 +60,21 @@ def doOp (o : Obj) (tok : String) : String × Obj :=
     let (v, o') := o.anomalyQ
     (showMatS v.length (match v with | [] => N | r :: _ => r.length) v, o')
   else if tok == "pi" then
-    (match phaseIndices o.cycle T with
-     | none => "raise:ZeroDivisionError"
-     | some pi => showShape pi.length (T / o.cycle) ++ showNatMat pi, o)
+    (showRes (fun pi => showShape pi.length (T / o.cycle) ++ showNatMat pi)
+      (phaseIndicesLoop o.cycle T), o)
+  else if tok == "Wc" then
+    let (r, o') := o.setWindowCurrent
+    (if r then "raise:ValueError" else "ok", o')
+  else if tok == "N" then
+    match o.nest with
+    | none => ("raise:ValueError", o)
+    | some o' => ("ok", o')
+  else if tok.startsWith "sh=" then
+    let (A, o') := o.anomalyQ
+    let S := shuffledAnomaly A N (natMat (tok.drop 3).toString)
+    (showMatS S.length N S, o')
+  else if tok.startsWith "im=" then
+    (showRes showNats (indicesSelectedMonthsI o.cycle T (ints (tok.drop 3).toString)), o)
   else if tok.startsWith "W=" then
     match parseWin (tok.drop 2).toString with
     | none => ("bad-window", o)
@@ -67,16 +82,10 @@ def doOp (o : Obj) (tok : String) : String × Obj :=
       let (r, o') := o.setWindow w
       (if r then "raise:ValueError" else "ok", o')
   else if tok.startsWith "sp=" then
-    (showRes showNats (indicesSelectedPhases o.cycle T (nats (tok.drop 3).toString)), o)
+    (showRes showNats (indicesSelectedPhasesI o.cycle T (ints (tok.drop 3).toString)), o)
   else if tok.startsWith "am=" then
-    match indicesSelectedMonths o.cycle T (nats (tok.drop 3).toString) with
-    | .ok idx =>
-      let (A, o') := o.anomalyQ
-      (showRes (fun m => showMatS m.length N m) (selectRows A idx), o')
-    | .valueError => ("raise:ValueError", o)
-    | .zeroDivision => ("raise:ZeroDivisionError", o)
-    | .indexError => ("raise:IndexError", o)
-    | .notImplemented => ("raise:NotImplementedError", o)
+    let (r, o') := o.anomalySelectedMonths (ints (tok.drop 3).toString)
+    (showRes (fun m => showMatS m.length N m) r, o')
   else ("bad-op", o)
 
 def runOps (o : Obj) (ops : List String) : List String :=
